@@ -134,6 +134,10 @@ pub fn run(ctx: &mut Ctx) {
         ("v-prefix", Spelling { v_prefix: true, ..Spelling::plain() }),
         ("v-prefix+blank-after-op", Spelling { v_prefix: true, op_blanks: 2, ..Spelling::plain() }),
         ("leading-zero", Spelling { lead_zero: true, ..Spelling::plain() }),
+        // components of more than 16 digits are zone Z4 (node's implementation refuses them whatever
+        // their value; the README grammar has no such limit): padding stays within 16 digits here
+        ("zero-pad-7", Spelling { lead_zero: true, zero_pad: 7, ..Spelling::plain() }),
+        ("zero-pad-12", Spelling { lead_zero: true, zero_pad: 12, ..Spelling::plain() }),
         ("hyphenless-pre", Spelling { hyphenless_pre: true, ..Spelling::plain() }),
         ("outer-blanks", Spelling { lead_blank: 2, trail_blank: 1, ..Spelling::plain() }),
         ("all", Spelling { op_blanks: 1, sep_blanks: 2, v_prefix: true, lead_zero: true, hyphenless_pre: true, lead_blank: 1, trail_blank: 1, ..Spelling::plain() }),
